@@ -163,6 +163,9 @@ class Run:
                     ns['_eq_group'] = True
                     ns['__eq__'] = lambda a, b: getattr(b, '_eq_group', False)
                     ns['__hash__'] = None if 'unhash' in tr else (lambda a: a._h)
+                if 'falsy' in tr:
+                    # an empty container-like handler: falsy, yet a handler like any other
+                    ns['__bool__'] = lambda a: False
                 cls = type(f'K{cid}', bs, ns)
                 cls = event_handler(*names, **kw)(cls)
                 self.classes.append(cls)
